@@ -247,6 +247,27 @@ impl Engine for StoreEngine {
             return json!({ "store": serde_json::to_value(&case).unwrap(), "calm": calm,
                            "track": serde_json::to_value(&tc).unwrap() });
         }
+        if self.prop == "C10" && Rng::new(mix(seed, 0x5A)).chance(1, 6) {
+            // cross-shard differential (see run): every query fully drained, no un-awaited
+            // merges (their effect is legitimately schedule dependent), no armed faults
+            let mut c = case.clone();
+            c.cfg.group_hook = true;
+            let mut ops = vec![];
+            for op in c.ops.into_iter() {
+                match op {
+                    Op::MergeNoblock { dest, src, classes, hist, .. } => ops.push(Op::MergeExt { dest, src, classes, hist, fail_nth: None }),
+                    Op::FutGet(_) | Op::FutReady(_) | Op::FutDrop(_) => {}
+                    Op::Drain { slot, .. } => ops.push(Op::Drain { slot, ok: Drain::All, err: Drain::All }),
+                    Op::Add { id, class, obs, upd, .. } => ops.push(Op::Add { id, class, obs, upd, fail_nth: None }),
+                    Op::MergeOwned { dest, src, classes, remove, hist, .. } => ops.push(Op::MergeOwned { dest, src, classes, remove, hist, fail_nth: None }),
+                    Op::MergeExt { dest, src, classes, hist, .. } => ops.push(Op::MergeExt { dest, src, classes, hist, fail_nth: None }),
+                    o => ops.push(o),
+                }
+            }
+            c.ops = ops;
+            let other = 1 + (c.cfg.shards % 5);
+            return json!({ "store": serde_json::to_value(&c).unwrap(), "calm": calm, "xshard": other });
+        }
         json!({ "store": serde_json::to_value(&case).unwrap(), "calm": calm })
     }
 
@@ -282,6 +303,39 @@ impl Engine for StoreEngine {
         }
         let mut plan = plan.clone();
         plan.calm = case["calm"].as_bool().unwrap_or(false);
+        if self.prop == "C10" && sc.cfg.group_hook {
+            // C10 "the multiset of results is the same for every shard count", decided without
+            // any model of the post-processing hook: the same history on two shard counts with a
+            // group-dependent hook; every drained query must return the same multiset
+            out.stats.probe("cross_shard_differentials", 1);
+            let a = exec_store(&mut out, self.prop, &sc, &plan, 0);
+            if out.violation.is_some() {
+                return out;
+            }
+            let mut sc2 = sc.clone();
+            sc2.cfg.shards = case["xshard"].as_u64().unwrap_or(1) as usize;
+            let b = exec_store(&mut out, self.prop, &sc2, &plan, 1);
+            if out.violation.is_some() {
+                return out;
+            }
+            if let (Some(a), Some(b)) = (a, b) {
+                if a.finished && b.finished {
+                    for (x, y) in a.dist_log.iter().zip(b.dist_log.iter()) {
+                        if x != y {
+                            out.violation = Some(Violation::new(
+                                "C10",
+                                "shard-dependent-results",
+                                "distance_query",
+                                if x.1.len() != y.1.len() { "count" } else { "different" },
+                                format!("query #{}: {} shards give {:?} (+{} errors), {} shards give {:?} (+{} errors)", x.0, sc.cfg.shards, x.1, x.2, sc2.cfg.shards, y.1, y.2),
+                            ));
+                            return out;
+                        }
+                    }
+                }
+            }
+            return out;
+        }
         if self.prop != "C11" {
             exec_store(&mut out, self.prop, &sc, &plan, 0);
             return out;
